@@ -64,14 +64,14 @@ func runC02H(t *testing.T, c c02hCase) kit.Outcome {
 			holder.Released = true
 			w.mu.Unlock()
 			w.wg.Add(1)
-			go func() { defer w.wg.Done(); complete(holder.L, c.Outcome) }()
+			go func() { defer w.wg.Done(); defer notePanic(); complete(holder.L, c.Outcome) }()
 		}
 		for _, a := range c.Order {
 			if a == 0 {
 				release()
 			} else if c.GiveUp == "cancel" {
 				w.wg.Add(1)
-				go func() { defer w.wg.Done(); waiter.cancel() }()
+				go func() { defer w.wg.Done(); defer notePanic(); waiter.cancel() }()
 			}
 		}
 		synctest.Wait()
